@@ -314,6 +314,40 @@ def run(ck: Checker):
         res_calls = [n for n in walk_shallow_func(outer.node) if isinstance(n, ast.Call) and method_of(n)[1] == 'result']
         ok = len(pn) == len(cn) and bool(res_calls) and is_name(method_of(res_calls[0])[0], cn[1])
     ck.ob('C18-7', outer, cons_t[0] if cons_t else outer.node, ok, f'consumer unpacks {cn} in the producer\'s order {pn} and waits on the future component' if ok else 'consumer unpack does not agree with the producer tuple / does not wait on the future component')
+    # ------------------------------------------------------------------ C18-13
+    ck.rule('C18-13', 'a response that has arrived is delivered whatever the clock says: in the consumer of SocketClient.stream and in SocketClient.request a timeout is raised only by the wait on the future itself (`fut.result(timeout=…)`, which returns a result that is already there even for a timeout <= 0), never by comparing the clock (EXITS)', minimum=1)
+    for qn in ('SocketClient.stream', 'SocketClient.request'):
+        g = mod.func(qn)
+        bad = []
+        for n in walk_shallow_func(g.node):
+            if isinstance(n, ast.Raise) and n.exc is not None:
+                t = n.exc.func if isinstance(n.exc, ast.Call) else n.exc
+                if (dotted(t) or '').split('.')[-1] in ('TimeoutError', 'Timeout', 'CancelledError'):
+                    bad.append(n)
+        waits = [n for n in walk_shallow_func(g.node) if isinstance(n, ast.Call) and method_of(n)[1] == 'result' and (kwarg(n, 'timeout') is not None or n.args)]
+        if not waits and qn.endswith('request'):
+            continue
+        ck.ob('C18-13', g, bad[0] if bad else (waits[0] if waits else g.node), bool(waits) and not bad, f'the only source of a response timeout in {g.name} is `{norm_text(waits[0])[:60]}`' if waits and not bad else (f'L{bad[0].lineno}: `{norm_text(bad[0])[:60]}` raises a timeout by the clock alone: a response that arrived in time but is collected late (a consumer lagging behind the enqueuer by more than response_timeout) is replaced by TimeoutError' if bad else f'{g.name} does not wait on the future with the response timeout'))
+    # ------------------------------------------------------------------ C18-12
+    ck.rule('C18-12', 'the codec named by the caller is the codec used: write_record does not re-bind its `encoder` parameter (a choice by the type of the payload breaks values that are not exactly that type: str with lone surrogates, str / bytes subclasses); encode() and the header are fed by that one name (AGREE)', minimum=1)
+    wr = mod.func('write_record')
+    enc_p = [p_ for p_ in wr.params() if p_ == 'encoder']
+    probs = []
+    if not enc_p:
+        probs.append('write_record has no `encoder` parameter')
+    else:
+        from mpsa.flow import assigned_names as _an
+
+        reb = [n for n in walk_shallow_func(wr.node) if isinstance(n, (ast.Assign, ast.AugAssign, ast.AnnAssign, ast.NamedExpr)) and any(isinstance(x, ast.Name) and x.id == 'encoder' and isinstance(x.ctx, ast.Store) for x in ast.walk(n))]
+        if reb:
+            probs.append(f'L{reb[0].lineno}: `{norm_text(reb[0])[:50]}` re-binds the codec chosen by the caller')
+        enc_calls = [n for n in walk_shallow_func(wr.node) if isinstance(n, ast.Call) and dotted(n.func) == 'encode']
+        if not (enc_calls and len(enc_calls[0].args) >= 2 and is_name(enc_calls[0].args[1], 'encoder')):
+            probs.append('the payload is not encoded with the `encoder` parameter')
+        hdr = [n for n in walk_shallow_func(wr.node) if isinstance(n, ast.JoinedStr) and any(isinstance(v, ast.FormattedValue) and is_name(v.value, 'encoder') for v in n.values)]
+        if not hdr:
+            probs.append('the record header does not announce the `encoder` parameter')
+    ck.ob('C18-12', wr, wr.node, not probs, '; '.join(probs) if probs else 'payload encoded with, and header announcing, the caller\'s `encoder`, which is never re-bound')
     # ------------------------------------------------------------------ C18-11
     # the client's pending-request queue and the stream hand-off are SingleLane objects, fed by any number of requester threads
     from . import c01, c09
